@@ -667,6 +667,10 @@ rfbClientConnectionGone(rfbClientPtr cl)
        close() method in rfbCloseClient) */
     while (cl->extensions) {
         rfbExtensionData* next = cl->extensions->next;
+        /* a client torn down without rfbCloseClient() (rfbScreenCleanup on an open client):
+           the extension still owns its data and has not been told */
+        if (cl->extensions->data && cl->extensions->extension->close)
+            cl->extensions->extension->close(cl, cl->extensions->data);
         free(cl->extensions);
         cl->extensions = next;
     }
